@@ -1,12 +1,167 @@
 import Driver.Util
-/-! Driver section for C20 (stub until the model is online). -/
+import RxnModel.Model.Reorder
+/-!
+Driver section for C20.
+
+`M C20 b <maxSize> <delay01>`                      lockstep on `EventBatcher` (ops = method calls)
+`M C20 rf <maxSize> <delay01> <bufferSize> [old]`  trace validation of `ReorderFetcher`: every op is a scheduler
+  step of the harness (start an operation / fire the timer / release a parked goroutine / complete a fetch); the
+  driver performs the corresponding actions of `Reorder.step` (the transition system the theorems are about),
+  lets released goroutines run to their next hook point, and prints the resulting thread positions, live fetches
+  and what was sent to `Output` during the step. `old` = the code before the repair of D17 (no `flushMu`).
+-/
 namespace Driver.C20
 open Rxn Driver
 
-def step (st : Unit) : List String → Unit × String
+def showNats (xs : List Nat) : String :=
+  if xs.isEmpty then "-" else joinWith "," (xs.map toString)
+
+/-! ### batcher (lockstep) -/
+
+structure BSt where
+  s : Batcher.St Nat
+  addedRev : List Nat := []
+  flushed : List (List Nat) := []
+
+def tokStr : Option Nat → String
+  | some n => s!"tok {n}"
+  | none => "unarmed"
+
+def bstep (st : BSt) : List String → BSt × String
+  | ["add", x] => ({ st with s := Batcher.add st.s (natOr x), addedRev := natOr x :: st.addedRev }, "-")
+  | ["full"] => (st, toString (Batcher.isFull st.s))
+  | ["flush", t] =>
+    let tok := if t == "cur" then Batcher.Tok.cur else Batcher.Tok.tok (natOr t)
+    let r := Batcher.flush st.s tok
+    ({ st with s := r.1, flushed := st.flushed ++ [r.2] }, showNats r.2)
+  | ["fire"] => (st, tokStr (Batcher.fire st.s))
+  | ["stale"] => (st, tokStr (Batcher.stale st.s))
+  | ["concat"] => (st, "ok")   -- spec: C20.batcher_concat evaluated on the implementation
   | _ => (st, "bad-op")
 
+/-! ### reorder fetcher (trace validation) -/
+
+structure RSt where
+  s : Reorder.St Nat Nat
+  atomic : Bool := true
+  freeP : Bool := false     -- producer released from its hook (running or blocked)
+  freeT : Bool := false
+  out : List Nat := []      -- sent to Output during the current step
+
+def fetchFn (evs : List Nat) : List Nat := evs
+
+def isFree (st : RSt) : Reorder.Tid → Bool
+  | .prod => st.freeP
+  | .tmo => st.freeT
+
+def setFree (st : RSt) (t : Reorder.Tid) (v : Bool) : RSt :=
+  match t with
+  | .prod => { st with freeP := v }
+  | .tmo => { st with freeT := v }
+
+/-- apply one action of the transition system; `none` if it is not enabled -/
+def act (st : RSt) (a : Reorder.Act Nat) : Option RSt :=
+  match Reorder.step fetchFn st.atomic st.s a with
+  | some (s', o) => some { st with s := s', out := st.out ++ o }
+  | none => none
+
+/-- let one released thread run until it parks at its next hook point, returns, or blocks -/
+def advance (st : RSt) (t : Reorder.Tid) : Option RSt :=
+  if !isFree st t then none else
+  match Reorder.pc st.s t with
+  | .enter =>
+    match act st (.lock t) with
+    | some st1 => (act st1 (.flushA t)).map (fun st2 => setFree st2 t false)   -- parks at rf.flush.mid
+    | none => none                                                           -- blocked on flushMu
+  | .mid _ => (act st (.flushB t)).map (fun st1 => setFree st1 t false)        -- none: blocked in Reserve
+  | _ => none
+
+def settle : Nat → RSt → RSt
+  | 0, st => st
+  | n + 1, st =>
+    match advance st .prod with
+    | some st1 => settle n st1
+    | none =>
+      match advance st .tmo with
+      | some st1 => settle n st1
+      | none => st
+
+def thrStr (st : RSt) (t : Reorder.Tid) : String :=
+  match Reorder.pc st.s t with
+  | .idle => "i"
+  | .added => "a"
+  | .enter => if isFree st t then "L" else "e"
+  | .locked => "l"
+  | .mid evs => if isFree st t then "C" else s!"m{evs.length}"
+
+def snapshot (st : RSt) : String :=
+  let run := st.s.inflight.map (fun p => s!"{p.1}:" ++ joinWith "." (p.2.map toString))
+  s!"p={thrStr st .prod} t={thrStr st .tmo} run={if run.isEmpty then "-" else joinWith ";" run} out={showNats st.out}"
+
+def finish (st : RSt) (res : String) : RSt × String :=
+  (st, res ++ " | " ++ snapshot st)
+
+def isIdle {α : Type} : Reorder.Pc α → Bool
+  | .idle => true
+  | _ => false
+
+def parked (st : RSt) (t : Reorder.Tid) : Bool :=
+  !isFree st t && (match Reorder.pc st.s t with | .enter => true | .mid _ => true | _ => false)
+
+def tidOf (s : String) : Reorder.Tid := if s == "p" then .prod else .tmo
+
+def rstep (st0 : RSt) (ws : List String) : RSt × String :=
+  let st := { st0 with out := [] }
+  match ws with
+  | ["add", x] =>
+    if !isIdle st.s.pp then finish st "busy" else
+    match (act st (.pAdd (natOr x))).bind (fun s1 => act s1 .pIsFull) with
+    | some st1 => finish st1 (if isIdle st1.s.pp then "ret" else "park")
+    | none => finish st "model-stuck"
+  | ["flush"] =>
+    if !isIdle st.s.pp then finish st "busy" else
+    match act st .pFlush with
+    | some st1 => finish st1 "park"
+    | none => finish st "model-stuck"
+  | [op] =>
+    if op == "fire" || op == "stale" then
+      if !isIdle st.s.tp then finish st "tbusy" else
+      match (act st (if op == "fire" then .fire else .stale)).bind (fun s1 => act s1 .tmoRecv) with
+      | some st1 => finish st1 "recv"
+      | none => finish st "unarmed"
+    else finish st "bad-op"
+  | ["rel", t] =>
+    let tid := tidOf t
+    if !parked st tid then finish st "noop" else
+    finish (settle 8 (setFree st tid true)) "ok"
+  | ["fin", r] =>
+    match st.s.inflight with
+    | [] => finish st "nofetch"
+    | fl =>
+      let seq := (fl.getD (natOr r % fl.length) (0, [])).1
+      match (act st (.fetchDone seq)).bind (fun s1 => act s1 .drain) with
+      | some st1 => finish (settle 8 st1) s!"seq={seq}"
+      | none => finish st "model-stuck"
+  | _ => finish st "bad-op"
+
+inductive Mode where
+  | b (st : BSt)
+  | rf (st : RSt)
+  | bad
+
+def step (m : Mode) (ws : List String) : Mode × String :=
+  match m with
+  | .b st => let r := bstep st ws; (.b r.1, r.2)
+  | .rf st => let r := rstep st ws; (.rf r.1, r.2)
+  | .bad => (.bad, "bad-header")
+
 def handle (lines : Array String) (i : Nat) (out : Array String) : Nat × Array String :=
-  runLines step () lines i out
+  let hdr := if i = 0 then [] else words (lines.getD (i - 1) "")
+  let m : Mode := match hdr with
+    | ["M", "C20", "b", ms, d] => .b { s := Batcher.new (natOr ms) (natOr d != 0) }
+    | ["M", "C20", "rf", ms, d, bs] => .rf { s := Reorder.init (natOr ms) (natOr d != 0) (natOr bs) }
+    | ["M", "C20", "rf", ms, d, bs, "old"] => .rf { s := Reorder.init (natOr ms) (natOr d != 0) (natOr bs), atomic := false }
+    | _ => .bad
+  runLines step m lines i out
 
 end Driver.C20
